@@ -53,6 +53,26 @@ fn index_driver(_ctx: &RunCtx, stats: &mut Stats, rep: &mut Reporter) {
     }
     idx.push(usize::MAX);
     idx.push(usize::MAX - 1);
+    // an in-range value with high bits added (a check done in a narrower type would let these through): every single
+    // high bit, whole multiples of 2^8, 2^16, 2^32, and the top of the range
+    for v in 0..64usize {
+        for p in 4..usize::BITS {
+            if (1usize << p) > v {
+                idx.push((1usize << p) | v);
+            }
+        }
+        for k in [1usize, 2, 3, 0xff, 0xffff, 0x7fff_ffff, 0xffff_ffff] {
+            for sh in [8u32, 16, 32] {
+                if let Some(x) = k.checked_shl(sh).filter(|x| x >> sh == k) {
+                    idx.push(x | v);
+                }
+            }
+        }
+        idx.push(usize::MAX - v);
+        idx.push((usize::MAX << 6) | v);
+    }
+    idx.sort_unstable();
+    idx.dedup();
     for i in idx {
         let case = json!({"index": i as u64});
         if let Err(f) = guarded("C20", "index_conversions", index_check, &case, stats) {
